@@ -1,6 +1,6 @@
 (* C05 property theorems: parameter blocks, schedules, and the message / schema / alerts / password decoders. *)
 From Coq Require Import NArith ZArith List Bool.
-From PV Require Import Model.DataTypes Model.ParamBlocks Spec.C05p Proofs.C05pFacts Spec.C05s Proofs.C05sFacts Spec.C05r Proofs.C05rFacts.
+From PV Require Import Model.DataTypes Model.ParamBlocks Spec.C05p Proofs.C05pFacts Spec.C05s Proofs.C05sFacts Spec.C05r Proofs.C05rFacts Spec.C05u Proofs.C05uFacts.
 Import ListNotations.
 Open Scope N_scope.
 
@@ -46,6 +46,14 @@ Example C05_regdata_nonvacuous :
   forallb entry_ok [mkRE 1 10 (DBool true); mkRE 2 10 (DBool false); mkRE 4 5 (DInt 513); mkRE 5 10 (DBool true);
                     mkRE 14 12 (DRaw [65; 66]); mkRE 15 0 DNone; mkRE 16 1 (DInt (-3))] = true.
 Proof. vm_compute. reflexivity. Qed.
+
+(* product information: the UID text is the canonical base-32 numeral of (UID bytes ++ CRC-16), and the whole message *)
+Theorem C05_uid : C05_uid_statement.
+Proof. exact C05uFacts.C05_uid. Qed.
+Print Assumptions C05_uid.
+Theorem C05_product : C05_product_statement.
+Proof. exact C05uFacts.C05_product. Qed.
+Print Assumptions C05_product.
 
 (* non-vacuity: a value with every optional section present meets wf_sensor *)
 Example C05_sensor_nonvacuous :
